@@ -24,6 +24,7 @@ variable (c : Prop) [Decidable c]
 @[simp] theorem Fut.ite_phase (a b : Fut) : (if c then a else b).phase = if c then a.phase else b.phase := by split <;> rfl
 @[simp] theorem Fut.ite_busy (a b : Fut) : (if c then a else b).busy = if c then a.busy else b.busy := by split <;> rfl
 @[simp] theorem Fut.ite_wr (a b : Fut) : (if c then a else b).wr = if c then a.wr else b.wr := by split <;> rfl
+@[simp] theorem Fut.ite_bo (a b : Fut) : (if c then a else b).bo = if c then a.bo else b.bo := by split <;> rfl
 end ite
 
 inductive Step (cfg : Cfg) (s : State) (t : Tid) : Lbl → State → Prop
